@@ -80,8 +80,11 @@ def run_variant(mod, base_model, v, tier, base_idents=frozenset()):
 def _variant_worker(args):
     prop, idx, tier, base = args
     mod = load_check(prop)
-    variants = list(getattr(mod, 'VARIANTS', []))
     model = Model()
+    if isinstance(idx, tuple):          # ('fuzz', path, kind)
+        from .mutate import FuzzVariant
+        return idx, run_variant(mod, model, FuzzVariant(idx[1], idx[2]), tier, frozenset(tuple(b) for b in base))
+    variants = list(getattr(mod, 'VARIANTS', []))
     if hasattr(mod, 'extra_variants') and tier == 'thorough':
         variants += list(mod.extra_variants(model))
     if tier == 'thorough':
@@ -93,7 +96,7 @@ def _variant_worker(args):
 def run_variants(prop, mod, model, variants, all_variants, tier, base_viol):
     """Run the source variants, in parallel processes when there are many (each is a full re-analysis)."""
     jobs = int(os.environ.get('VERIF_JOBS', '0') or 0) or min(16, os.cpu_count() or 1)
-    idxs = [all_variants.index(v) for v in variants]
+    idxs = [('fuzz', v.path, v.fuzz_kind) if hasattr(v, 'fuzz_kind') else all_variants.index(v) for v in variants]
     if len(variants) < 6 or jobs <= 1:
         return [run_variant(mod, model, v, tier, base_viol) for v in variants]
     import concurrent.futures as cf
@@ -184,6 +187,12 @@ def _main(prop, a, seed, timer):
         from .mutate import load_seeds
         all_variants += load_seeds(prop, report.VERIF)
     variants = [v for v in all_variants if v.kind == 'M'] if a.tier == 'quick' else list(all_variants)
+    if a.tier == 'thorough':
+        # behaviour-preserving transformations of every file that carries a rule instance: must stay silent
+        from .mutate import FUZZ_KINDS, FuzzVariant
+        for path in sorted({i.file for i in ctx.instances if i.file.endswith('.py')}):
+            for k in FUZZ_KINDS:
+                variants.append(FuzzVariant(path, k))
     vres = []
     control_errs = []
     if not new_viol and not floor_errs and not ctx.anchor_error:
